@@ -29,7 +29,8 @@ CyclesStable(ev) ==
     /\ Chk("TextFixpoint", \A i \in 1..Len(ev.cycles) : ev.cycles[i].load = "ok" => ev.cycles[i].text_eq)
     /\ Chk("NoNewDiagnostics", \A i \in 1..Len(ev.cycles) : ev.cycles[i].load = "ok" => ev.cycles[i].diags <= ev.ndiags)
     \* the file entry points: write(path, banner) puts the banner comment first, load(path) gives the model back
-    /\ "file" \in DOMAIN ev => Chk("FileWriteLoad", ev.file.ok /\ ev.file.banner /\ ev.file.eq)
+    \* and the file with its banner is a fixpoint of load / write with the same banner
+    /\ "file" \in DOMAIN ev => Chk("FileWriteLoad", ev.file.ok /\ ev.file.banner /\ ev.file.eq) /\ Chk("FileWithBannerIsFixpoint", ev.file.fix)
 
 Verdict(ev) ==
     /\ ("C02" \in Judge => ContentPreserved(ev))
